@@ -1,5 +1,5 @@
 SPECIFICATION Spec
-CONSTANTS Async = FALSE  MaxChunk = 40
+CONSTANTS Async = FALSE  MaxChunk = 40  Rich = FALSE
 INVARIANTS Safe AtEnd EndIsDetermined
 PROPERTY Terminates
 CHECK_DEADLOCK FALSE
